@@ -21,7 +21,7 @@ OPTSETS = [
     ("quoted", ["-fincludes-quoted", "-fcompound-names"]),
     ("default", []),
     ("noper-nooer", ["-no-gen-PER", "-no-gen-OER"]),
-    ("noconstr-plain", ["-fno-constraints", "-no-gen-PER", "-no-gen-OER", "-fcompound-names"]),   # outside the F84 region
+    ("noconstr-plain", ["-fno-constraints", "-no-gen-PER", "-no-gen-OER", "-fcompound-names"]),   # outside the F74 region
 ]
 
 PROPOSED_FINDINGS = [
@@ -58,7 +58,7 @@ PROPOSED_FINDINGS = [
               "opts": ["-fcompound-names"], "types": ["Frame", "Other"],
               "c_output": "Frame.c:14:20: error: expected expression before ',' token"},
   "matcher": "module has an object set row '{ <built-in type> IDENTIFIED BY ...}' and the compile error is 'expected expression before ',' token' in the asn_IOS_ table"},
- {"id": "F84", "property": "C10", "status": "known",
+ {"id": "F74", "property": "C10", "status": "known",
   "what": "-fno-constraints: emit_member_table returns before emitting the member-level OER/PER constraint records but the member table still "
           "references &asn_OER_memb_<x>_constr_<n> / &asn_PER_memb_<x>_constr_<n>: any SEQUENCE/SET/CHOICE/OF member carrying a constraint => exit 0, emitted C does not compile",
   "witness": {"module": "M DEFINITIONS AUTOMATIC TAGS ::= BEGIN T ::= SEQUENCE { a INTEGER (0..7) } END", "opts": ["-fno-constraints"],
@@ -354,7 +354,7 @@ def classify(res):
         if re.search(r"asn_DFL_\d+_\w+_-\d", msg) or (re.search(r"DEFAULT\s+-\d", text) and re.search(r"before .-. token", msg)):
             out.append(("compile", "F43", f + ": " + msg))     # negative DEFAULT (literal or through an ENUMERATED item with a negative value)
         elif re.search(r"asn_DEF_Member_\d+. undeclared", msg) and re.search(r"OF\s+(\[[^\]]*\]\s*(IMPLICIT|EXPLICIT)?\s*)?INTEGER\s*\(", text): out.append(("compile", "F44", f + ": " + msg))
-        elif "-fno-constraints" in res["opts"] and re.search(r"asn_(OER|PER)_memb_\w+_constr_\d+. undeclared", msg): out.append(("compile", "F84", f + ": " + msg))
+        elif "-fno-constraints" in res["opts"] and re.search(r"asn_(OER|PER)_memb_\w+_constr_\d+. undeclared", msg): out.append(("compile", "F74", f + ": " + msg))
         elif "#error" in msg and "cannot be determined" in msg: out.append(("compile", "F85", f + ": " + msg))
         elif re.search(r"_(free|print|constraint). redeclared as different kind of symbol", msg) and \
              re.search(r"(ENUMERATED|INTEGER)\s*\{[^}]*\b(free|print|constraint)\b", text): out.append(("compile", "F86", f + ": " + msg))
@@ -434,7 +434,8 @@ def run(ctx):
         w = f.get("witness", {})
         if f.get("status") == "known" and "module" in w:
             text = w["module"] if "\n" in w["module"] else w["module"].replace(" BEGIN ", " BEGIN\n  ").replace(" END", "\nEND\n")
-            opts = w.get("opts", ["-fcompound-names"])
+            opts = w.get("opts") or w.get("options_b") or ["-fcompound-names"]
+            if isinstance(opts, str): opts = opts.split()
             jobs.append((len(jobs), ("witness", f["id"]), text, w.get("types") or type_names_of(text), "witness", opts, False))
     ctx.log(f"running {len(jobs)} asn1c+gcc pipelines ({nvalid} valid modules x {len(OPTSETS)} option sets, {len(kinds) * reps} single-fault modules x 2)")
     results = cgen.pmap(job, jobs)
